@@ -1233,6 +1233,8 @@ func (s *supervisor) finish(planned int64) {
 	c.Assume("decoders are deterministic functions of their input (an alloc excess / crash must reproduce on a second run to count)")
 	c.Assume("memory proportionality is measured against a fixed affine bound, not proved (DESIGN §7)")
 	os.RemoveAll(workDir)
+	// free-running -race pass: concurrent callers decoding their own copies (state shared between calls)
+	c.RaceAudit("c02")
 	c.Finish()
 }
 
